@@ -28,8 +28,8 @@ ASSUMPTIONS = [
     "objects are picklable by construction (classes importable from vlib.userclasses)",
 ]
 SHARDS = {"quick": 12, "thorough": 14}
-FLOORS = {"quick": {"round_trips": 2500, "renamed_loads": 1500, "aliased_objects": 100, "big_payloads": 40},
-          "thorough": {"round_trips": 50000, "renamed_loads": 30000, "aliased_objects": 2000, "big_payloads": 800}}
+FLOORS = {"quick": {"huge_run_payloads": 3, "round_trips": 2500, "renamed_loads": 1500, "aliased_objects": 100, "big_payloads": 40},
+          "thorough": {"huge_run_payloads": 60, "round_trips": 50000, "renamed_loads": 30000, "aliased_objects": 2000, "big_payloads": 800}}
 
 EXTS = ["", ".pkl", ".z", ".gz", ".bz2", ".xz", ".lzma"]
 METHODS = ["zlib", "gzip", "bz2", "lzma", "xz"]
@@ -66,6 +66,11 @@ def gen_compress(rng):
 
 def gen_object(rng, tier):
     r = rng.random()
+    if rng.random() < 0.012:
+        # a very long constant / short-period run: one 8192-byte compressed block then inflates to many MiB
+        kind = rng.choice(["zeros", "zeros", "ab"])
+        n = rng.choice([8 << 20, (8 << 20) + 1, 12 << 20, 24 << 20])
+        return ["Z", kind, n, 0], "huge-run"
     if r < 0.10:
         spec = gen_obj.gen_big(rng)
         if rng.random() < 0.5:
@@ -100,12 +105,14 @@ def run_case(case, ctx):
         obj = with_arrays(obj, rng)
         klass += "+arrays"
     can = gen_obj.canon(spec) if klass.startswith(("plain", "aliased")) else f"{klass}:{spec}"
-    ctx.count({"big": "big_payloads", "aliased": "aliased_objects"}.get(klass.split("+")[0], "plain_objects"))
-    nontrivial = any(c in can for c in "[{<") or klass.startswith("big")
+    ctx.count({"big": "big_payloads", "aliased": "aliased_objects", "huge-run": "huge_run_payloads"}.get(klass.split("+")[0], "plain_objects"))
+    nontrivial = any(c in can for c in "[{<") or klass.startswith("big") or klass == "huge-run"
     d = harness.mkscratch("vjl-c03-")
     try:
-        for combo in range(4 if klass.startswith("big") else 7):
+        for combo in range(2 if klass == "huge-run" else (4 if klass.startswith("big") else 7)):
             compress = gen_compress(rng)
+            if klass == "huge-run":
+                compress = rng.choice([("zlib", rng.choice([4, 6, 9])), ("gzip", rng.choice([4, 9])), 9, 6, ("zlib", 1), 0, ("bz2", 1)])
             if klass.startswith("big") and not (compress in (0, False) or compress == "zlib" or compress == "gzip" or
                                                 (isinstance(compress, int) and compress <= 3) or
                                                 (isinstance(compress, tuple) and compress[0] in ("zlib", "gzip") and (compress[1] or 3) <= 3)):
